@@ -113,7 +113,15 @@ def model_beh(terms, doc):
 def run(case, ctx):
     import valida
     doc = case["doc"]
-    ok, Ss = call(lambda: [build.schema_obj(s) for s in case["S"]])
+    # the first receiving schema is built from a list the caller keeps (and builds a second,
+    # sibling schema from): neither the caller's list nor the sibling may change with the additions
+    ok0, shared = call(lambda: [build.rule_obj(r) for r in case["S"][0]])
+    if not ok0:
+        ctx.violate(f"C18/construct:{shared.type}", f"{shared!r}")
+        return
+    shared_ids = [id(r) for r in shared]
+    sibling = valida.Schema(shared)
+    ok, Ss = call(lambda: [valida.Schema(shared)] + [build.schema_obj(s) for s in case["S"][1:]])
     ok2, Ts = call(lambda: [build.schema_obj(t) for t in case["T"]])
     if not ok or not ok2:
         bad = Ss if not ok else Ts
@@ -170,6 +178,10 @@ def run(case, ctx):
             ctx.violate(f"C18/T-behaviour/{tag}", f"the added schema validates differently after addition #{n}")
             return
         ctx.count("root:" + ("empty" if not rterm["parts"] else "concrete" if M.is_concrete(rterm) else "non-concrete"))
+    if sorted(id(r) for r in shared) != sorted(shared_ids):
+        ctx.violate("C18/callers-list-changed", f"the list the receiving schema was built from now has {len(shared)} rules (was {len(shared_ids)})")
+    if len(sibling.rules) != len(shared_ids) or beh(sibling, doc) != beh(build.schema_obj(case["S"][0]), doc):
+        ctx.violate("C18/sibling-schema-changed", "a second schema built from the same rule list changed when rules were added to the first")
     for name, detail in mon.CONTRACTS.take():
         ctx.violate(f"C18/contract:{name}", detail)
     ctx.count("histories")
